@@ -1,18 +1,79 @@
 package main
 
+import (
+	"fmt"
+	"go/ast"
+	"strings"
+)
+
 func init() {
 	register(&propCheck{
 		id:   "C09",
-		pkgs: []string{"cue/parser", "cue/scanner", "cue/literal"},
+		pkgs: []string{"cue/parser", "cue/scanner", "cue/literal", "cue/ast"},
 		run:  checkC09,
 		about: "C09 (the parser is total; literals round-trip through quoting): decides (a) the parser's bailout discipline — every panic in cue/parser sets p.panicking first (the API recover is conditional on it) or is a reviewed unreachable assertion, and the exported entry points install the recover before parsing; " +
 			"(b) recursion in the parser is bounded — after removing the functions that take the nesting guard, no call cycle remains except reviewed bounded ones; " +
 			"(c) the escape alphabets of the quoting writer (literal.appendEscapedRune), the unquoting reader (literal.unquoteChar) and the scanner (scanner.scanEscape) agree, including the digit counts of \\x \\u \\U. " +
+			"(d) the identifier character classes of cue/ast and cue/scanner are the same predicates and ast.IsValidIdent classifies decoded runes only through them. " +
 			"It does not decide position containment nor that quoting an arbitrary string unquotes to the original (value-level: hash counts, multi-line indentation).",
 	})
 }
 
 func checkC09(c *Ctx) {
+	c09IdentClasses(c)
 	parserRules(c)
 	escapeRules(c)
+}
+
+// c09IdentClasses: the scanner and cue/ast each carry a copy of the
+// identifier character classes; ast.IsValidIdent decides whether a label can
+// be written unquoted, the scanner decides how it is read back. The two copies
+// must be the same predicates, and IsValidIdent must classify runes only
+// through them (an inline ASCII range test accepts non-ASCII digits the
+// scanner rejects as the start of an identifier).
+func c09IdentClasses(c *Ctx) {
+	for _, name := range []string{"isLetter", "isDigit"} {
+		a, b := c.fn("cue/ast", name), c.fn("cue/scanner", name)
+		ca, cb := newCaseFn(c, a), newCaseFn(c, b)
+		ra, _ := ca.walk(ca.g.Entry, nil)
+		rb, _ := cb.walk(cb.g.Entry, nil)
+		c.check("ident.char-classes-agree", "cue/ast."+name+"~cue/scanner."+name, a.Decl.Pos(), len(ra) > 0 && strings.Join(ra, "|") == strings.Join(rb, "|"),
+			"cue/ast."+name+" and cue/scanner."+name+" must be the same predicate (what the printer leaves unquoted must scan as one identifier): "+strings.Join(ra, "|")+"  vs  "+strings.Join(rb, "|"))
+	}
+	f := c.fn("cue/ast", "IsValidIdent")
+	info := f.Info()
+	inline := 0
+	nDigit, nLetter := 0, 0
+	byteIndexed := false
+	ast.Inspect(f.Body, func(n ast.Node) bool {
+		switch x := n.(type) {
+		case *ast.BinaryExpr:
+			switch x.Op.String() {
+			case "<", "<=", ">", ">=":
+				for _, o := range []ast.Expr{x.X, x.Y} {
+					if bl, ok := ast.Unparen(o).(*ast.BasicLit); ok && bl.Kind.String() == "CHAR" {
+						inline++
+					}
+				}
+			}
+		case *ast.CallExpr:
+			switch calleeName(info, x) {
+			case "cue/ast.isDigit":
+				nDigit++
+				if len(x.Args) == 1 {
+					ast.Inspect(x.Args[0], func(m ast.Node) bool {
+						if _, ok := m.(*ast.IndexExpr); ok {
+							byteIndexed = true
+						}
+						return true
+					})
+				}
+			case "cue/ast.isLetter":
+				nLetter++
+			}
+		}
+		return true
+	})
+	c.check("ident.classified-through-shared-predicates", f.Name, f.Decl.Pos(), inline == 0 && nDigit >= 2 && nLetter >= 1 && !byteIndexed,
+		fmt.Sprintf("IsValidIdent must classify runes only through isLetter/isDigit (leading-digit test and body), on decoded runes, never on bytes or with inline ranges: inline range tests=%d, isDigit calls=%d, isLetter calls=%d, byte-indexed=%v", inline, nDigit, nLetter, byteIndexed))
 }
